@@ -1,9 +1,9 @@
 #!/bin/bash
-# usage: seed_verify.sh <Cxx>   -- confirms a seeded mutant produced in /tmp/seed-<Cxx> and stores it under /verif/seeded/<Cxx>/
+# usage: seed_verify.sh <name> [worktree]   -- confirms a seeded mutant produced in /tmp/seed-<Cxx> and stores it under /verif/seeded/<Cxx>/
 # checks: (1) existing suite passes with the change, (2) demo fails with the change, (3) demo passes without it
 set -u
 id=$1
-wt=/tmp/seed-$id
+wt=${2:-/tmp/seed-$id}
 out=/verif/seeded/$id
 export CARGO_NET_OFFLINE=true CARGO_TARGET_DIR=$wt/target
 cd $wt || exit 2
